@@ -17,8 +17,9 @@ CONSTANTS
   MaxDirect = 1
   MaxUnwanted = 1
   ExcludeSource = TRUE
-  EarlyReturn = TRUE
-  FanoutUnfiltered = TRUE
+  EarlyReturn = FALSE
+  FanoutUnfiltered = FALSE
+  BatchLocalSkipped = TRUE
   Tolerated = {}
   Prep = TRUE
   PrepTp <- PrepTpAll
